@@ -100,3 +100,12 @@ claim("C05",
       "error every 50 samples and TLC validates each observation trace against the automaton (TraceConvergence) with the "
       "per-filter budget / tolerance table.",
       "TLA+ ConvergenceMonitor + TLC + trace validation of real convergence runs", "DESIGN.md section 5, C05")
+claim("C08",
+      "Integrator.tla models constant-rate integration in exact quaternions: the closed form as the machine q_{k+1} = q_k * u over "
+      "the finite group 2O (orbits of any length) and over rational steps (ClosedFormExact, Semigroup), the first-order step and "
+      "its conjugate-convention twin (ConventionsAgree), and the order-K series as c_K q + s_K q*(0,w) with rational coefficients "
+      "(ThetaSquared, SeriesLowOrders); TLC emits the exact cases; the harness checks AngularRate closed/series (update, batch, "
+      "k steps vs one step of k dt), the null-accelerometer step of Madgwick/Mahony(incl. carried bias)/AQUA IMU+MARG, EKF.f, "
+      "ROLEQ.attitude_propagation against the exact values, plus seeded in-range runs up to 400 steps, 2O orbits, the series "
+      "remainder bound and monotone improvement, and angular_velocities integrating back.",
+      "TLA+ Integrator + TLC + exact replay (bigint/Fraction mirror for realistic step sizes)", "DESIGN.md section 5, C08")
